@@ -284,7 +284,11 @@ func (vc *VC) memAt(st *State, t types.Type) string {
 
 // ---- loads and stores ----
 
-func (vc *VC) load(st *State, p string, t types.Type) string {
+func (vc *VC) load(st *State, p string, t types.Type) string { return vc.loadM(st, "", p, t) }
+
+// loadM loads a value of type t at p; mem names the memory of the cell when t is a
+// cell type reached through a private struct field ("" = the generic memory of t).
+func (vc *VC) loadM(st *State, mem string, p string, t types.Type) string {
 	e := vc.enc
 	switch u := t.Underlying().(type) {
 	case *types.Struct:
@@ -294,14 +298,21 @@ func (vc *VC) load(st *State, p string, t types.Type) string {
 		}
 		var fs []string
 		for i := 0; i < u.NumFields(); i++ {
-			fs = append(fs, vc.load(st, e.fieldPtr(p, i), u.Field(i).Type()))
+			fm := ""
+			if isCellType(u.Field(i).Type()) {
+				fm = e.memForField(t, i)
+			}
+			fs = append(fs, vc.loadM(st, fm, e.fieldPtr(p, i), u.Field(i).Type()))
 		}
 		return fmt.Sprintf("(mk-%s %s)", s, strings.Join(fs, " "))
 	case *types.Array:
 		vc.errorf("load of array value %s unsupported", t)
 		return e.zero(t)
 	}
-	m := vc.memAt(st, t)
+	if mem == "" {
+		mem = e.memFor(t)
+	}
+	m := vc.memAtByName(st, mem)
 	// read-after-write of the same cell: resolve syntactically, so that quantifier
 	// patterns over the loaded value see the stored term itself
 	if d, ok := vc.memDefs[m]; ok && d[0] == p {
@@ -310,21 +321,30 @@ func (vc *VC) load(st *State, p string, t types.Type) string {
 	return fmt.Sprintf("(select %s %s)", m, p)
 }
 
-func (vc *VC) store(st *State, p string, t types.Type, v string) {
+func (vc *VC) store(st *State, p string, t types.Type, v string) { vc.storeM(st, "", p, t, v) }
+
+func (vc *VC) storeM(st *State, mem string, p string, t types.Type, v string) {
 	e := vc.enc
 	switch u := t.Underlying().(type) {
 	case *types.Struct:
 		s := e.structSort(t)
 		for i := 0; i < u.NumFields(); i++ {
-			vc.store(st, e.fieldPtr(p, i), u.Field(i).Type(), fmt.Sprintf("(%s.%d %s)", s, i, v))
+			fm := ""
+			if isCellType(u.Field(i).Type()) {
+				fm = e.memForField(t, i)
+			}
+			vc.storeM(st, fm, e.fieldPtr(p, i), u.Field(i).Type(), fmt.Sprintf("(%s.%d %s)", s, i, v))
 		}
 		return
 	case *types.Array:
 		vc.errorf("store of array value %s unsupported", t)
 		return
 	}
-	name := e.memFor(t)
-	cur := vc.memAt(st, t)
+	name := mem
+	if name == "" {
+		name = e.memFor(t)
+	}
+	cur := vc.memAtByName(st, name)
 	st.mem[name] = vc.def(name, e.memSort(t), fmt.Sprintf("(store %s %s %s)", cur, p, v))
 	if vc.memDefs == nil {
 		vc.memDefs = map[string][2]string{}
@@ -336,13 +356,20 @@ func (vc *VC) store(st *State, p string, t types.Type, v string) {
 type leafCell struct {
 	path []int
 	typ  types.Type
+	mem  string // memory name of the cell
 }
 
-func leafCells(t types.Type, path []int, out *[]leafCell) {
+func leafCells(t types.Type, path []int, out *[]leafCell) { leafCellsM(t, path, "", out) }
+
+func leafCellsM(t types.Type, path []int, mem string, out *[]leafCell) {
 	switch u := t.Underlying().(type) {
 	case *types.Struct:
 		for i := 0; i < u.NumFields(); i++ {
-			leafCells(u.Field(i).Type(), append(append([]int{}, path...), i), out)
+			fm := ""
+			if isCellType(u.Field(i).Type()) && curProg != nil {
+				fm = curProg.fieldMem(t, i)
+			}
+			leafCellsM(u.Field(i).Type(), append(append([]int{}, path...), i), fm, out)
 		}
 		return
 	case *types.Array:
@@ -350,7 +377,10 @@ func leafCells(t types.Type, path []int, out *[]leafCell) {
 		*out = append(*out, leafCell{path: path, typ: t})
 		return
 	}
-	*out = append(*out, leafCell{path: path, typ: t})
+	if mem == "" {
+		mem = "M_" + typeKey(t)
+	}
+	*out = append(*out, leafCell{path: path, typ: t, mem: mem})
 }
 
 func pathFld(base string, path []int) string {
@@ -379,7 +409,8 @@ func (vc *VC) bulkUpdate(st *State, elem types.Type, cases []bulkCase) {
 			vc.errorf("bulk update of elements containing arrays unsupported (%s)", elem)
 			return
 		}
-		name := vc.enc.memFor(c.typ)
+		name := c.mem
+		vc.enc.registerMem(name, c.typ)
 		if _, ok := byMem[name]; !ok {
 			order = append(order, name)
 		}
@@ -388,7 +419,7 @@ func (vc *VC) bulkUpdate(st *State, elem types.Type, cases []bulkCase) {
 	for _, name := range order {
 		cs := byMem[name]
 		ct := cs[0].typ
-		old := vc.memAt(st, ct)
+		old := vc.memAtByName(st, name)
 		nw := vc.decl(name, vc.enc.memSort(ct))
 		body := fmt.Sprintf("(select %s p)", old)
 		// build nested ite, last case first
